@@ -68,6 +68,7 @@ func indexTable(x *Ctx) {
 			index *paths.Term  // the position looked up on this path (nil: none)
 		}
 		var sels []sel
+		byteSites := map[*ssa.IndexAddr]bool{}
 		for _, p := range ps {
 			hasKind, arith := false, []paths.Fact(nil)
 			for _, fc := range p.Facts {
@@ -91,6 +92,7 @@ func indexTable(x *Ctx) {
 				case *ssa.IndexAddr:
 					if xt := c.Term(v.X); xt != nil && strings.Contains(xt.String(), "Node.AsBytes") && k.bytes {
 						at = c.Term(v.Index)
+						byteSites[v] = true
 					}
 				}
 			})
@@ -200,6 +202,44 @@ func indexTable(x *Ctx) {
 					bad += fmt.Sprintf("index %s on a %s of length %s: no path of the index case applies\n", i, k.name, n)
 				}
 			}
+		}
+		if k.bytes {
+			// the value of the selected byte: a fresh integer node built from that very byte (a table of prepared nodes
+			// is one more place where one of the 256 values can go wrong)
+			nB, badB := 0, ""
+			for ia := range byteSites {
+				nB++
+				okB := false
+				for _, r := range *ia.Referrers() {
+					u, isLoad := r.(*ssa.UnOp)
+					if !isLoad {
+						continue
+					}
+					var follow func(v ssa.Value, depth int)
+					follow = func(v ssa.Value, depth int) {
+						if depth > 6 {
+							return
+						}
+						for _, r2 := range *v.Referrers() {
+							switch t := r2.(type) {
+							case *ssa.Convert:
+								follow(t, depth+1)
+							case *ssa.ChangeType:
+								follow(t, depth+1)
+							case *ssa.Call:
+								if h := t.Call.StaticCallee(); h != nil && h.Pkg != nil && h.Pkg.Pkg.Path() == "github.com/ipld/go-ipld-prime/node/basicnode" && h.Name() == "NewInt" && len(t.Call.Args) == 1 && t.Call.Args[0] == v {
+									okB = true
+								}
+							}
+						}
+					}
+					follow(u, 0)
+				}
+				if !okB {
+					badB += fmt.Sprintf("%s: the byte selected is not handed (through conversions only) to basicnode.NewInt\n", x.P.Pos(ia.Pos()))
+				}
+			}
+			x.C.Obl("C12.R7", "byte-node:resolve", x.pos(res), "an index into bytes yields basicnode.NewInt of the byte at that position", badB == "" && nB > 0, dedupLines(badB))
 		}
 		x.C.Obl("C12.R7", "index-table:"+k.name, x.pos(res),
 			fmt.Sprintf("on each of %d points (index, length) the index case looks up element i (i >= 0) or length+i (i < 0) when that is within the %s and leaves through the failure exit otherwise", nPts, k.name),
